@@ -7,6 +7,7 @@ CONSTANTS
   MaxFaults = 2
   MaxEnv = 2
   ForeignAt = "ref"
+  RenderFails = FALSE
   FailKinds = {}
 VIEW view
 ACTION_CONSTRAINT Emit
